@@ -4,6 +4,7 @@ import Req.Lemmas.C11
 import Req.Lemmas.C11Host
 import Req.Lemmas.C11Chain
 import Req.Lemmas.C11Hdr
+import Req.Lemmas.C11Life
 /-!
 C11 — Redirect policies are enforced exactly.
 
@@ -479,5 +480,62 @@ example :
     ((runChain ([PolicyDesc.max 5, .alwaysCopy [[97,117,116,104,111,114,105,122,97,116,105,111,110]]].map
         PolicyDesc.denote) h0 [b, a]).1.map
         fun h => h.hdr.values hAuthorization) = [[[116]], [[116]], [[116]]] := by decide
+
+/-! ## 5. Lifetime of the policy across `Client.Clone` -/
+section Lifetime
+open Req.Redirect.Lifetime
+
+/-- **policy_lifetime**: after ANY sequence of `SetRedirectPolicy` / `Clone` calls on a family
+of clients, client `j` enforces exactly: the last non-empty `SetRedirectPolicy` made on `j`
+itself; else, if `j` was created by `Clone` of `i`, what `i` enforced at that moment; else the
+default. (`run` is the forward state machine of client.go, `resolve` the look-back spec.) -/
+theorem policy_lifetime {α : Type} (dflt : α) (h : List (Op α)) (j : Nat) :
+    (run dflt h)[j]? = resolve dflt h j ∧ (run dflt h).length = nClients h :=
+  ⟨(run_spec dflt h).2 j, (run_spec dflt h).1⟩
+
+/-- **clone_carries_policy**: the clone enforces the composed policy of its parent, and cloning
+changes no existing client. -/
+theorem clone_carries_policy {α : Type} (dflt : α) (h : List (Op α)) (i : Nat) (hi : i < nClients h) :
+    (run dflt (.clone i :: h))[nClients h]? = (run dflt h)[i]? ∧
+    ∀ j, j < nClients h → (run dflt (.clone i :: h))[j]? = (run dflt h)[j]? := by
+  refine ⟨?_, ?_⟩
+  · rw [(run_spec dflt _).2, (run_spec dflt h).2]
+    simp [resolve, hi]
+  · intro j hj
+    rw [(run_spec dflt _).2, (run_spec dflt h).2]
+    have : j ≠ nClients h := by omega
+    simp [resolve, this]
+
+/-- **set_isolated**: `SetRedirectPolicy` on one client (original or clone) never changes what
+any other client enforces; with no argument it changes nothing at all. -/
+theorem set_isolated {α : Type} (dflt : α) (h : List (Op α)) (i : Nat) (ps : α) (empty : Bool) :
+    (∀ j, j ≠ i → (run dflt (.set i ps empty :: h))[j]? = (run dflt h)[j]?) ∧
+    (empty = true → run dflt (.set i ps empty :: h) = run dflt h) ∧
+    (empty = false → i < nClients h → (run dflt (.set i ps empty :: h))[i]? = some ps) := by
+  refine ⟨?_, ?_, ?_⟩
+  · intro j hj
+    rw [(run_spec dflt _).2, (run_spec dflt h).2]
+    have : ¬ i = j := fun e => hj e.symm
+    simp [resolve, this]
+  · intro he; simp [run, step, he]
+  · intro he hi
+    rw [(run_spec dflt _).2]
+    simp [resolve, he, hi]
+
+/-- **clone_decides_like_parent**: for every redirect, the clone's `CheckRedirect` returns what
+the parent's closure returned at clone time — whatever either side is configured to later. -/
+theorem clone_decides_like_parent (dflt : List (Option Policy)) (h : List (Op (List (Option Policy))))
+    (i : Nat) (hi : i < nClients h) (req : Bytes) (hdr : Headers) (via : Via) :
+    ((run dflt (.clone i :: h))[nClients h]?).map (fun ps => compose ps req hdr via) =
+      ((run dflt h)[i]?).map (fun ps => compose ps req hdr via) := by
+  rw [(clone_carries_policy dflt h i hi).1]
+
+/-- C(); Set(0,7); Clone(0); Set(0,8); Clone(1); Set(2,9); Set(1) with no argument:
+client 0 enforces 8, client 1 (cloned when 0 had 7) still 7, client 2 (clone of the clone) 9. -/
+example : run (α := Nat) 10
+    [.set 1 0 true, .set 2 9 false, .clone 1, .set 0 8 false, .clone 0, .set 0 7 false] = [8, 7, 9] := by
+  decide
+
+end Lifetime
 
 end Req.Props.C11
